@@ -9,7 +9,8 @@ import yv
 
 INVALID_ARG, BAD_TYPE, DUP = 29, 48, 56
 # declaration order matters for the table walks: a longer identifier is declared BEFORE the identifier that is its prefix (i_max before i, sx before s)
-VARS = {"i_max": ("i", [10, 11]), "i": ("i", [1, 2, 3]), "sx": ("s", ["p", "q"]), "s": ("s", ["x", "yy-a-longer-value", "z"]), "f": ("f", [1.5, 2.5]), "b": ("b", [0, 1])}
+# `time` is also the name of a built-in module (not imported here): externals and modules share the scanner's object table
+VARS = {"time": ("i", [7, 8]), "i_max": ("i", [10, 11]), "i": ("i", [1, 2, 3]), "sx": ("s", ["p", "q"]), "s": ("s", ["x", "yy-a-longer-value", "z"]), "f": ("f", [1.5, 2.5]), "b": ("b", [0, 1])}
 UNKNOWN = [("nosuch", "i", 5), ("i_", "i", 5), ("i_maxx", "i", 5), ("", "i", 5)]      # unknown identifiers, also a proper prefix / an extension of a known one, and the empty name
 # wrongly typed definitions: (var, api type, value)
 WRONG = [("i", "s", "q"), ("s", "i", 7), ("f", "i", 7), ("b", "s", "q")]
@@ -158,7 +159,17 @@ def run_chunk(arg):
         for o in ops:
             st0, _ = step(st0, o)
         ops = ops + [("scanr",)] + [("scan", j) for j in (0, 1) if st0["sc"][j] is not None]
-        rep = w.batch(pre + [cmd_of(o) for o in ops] + ["reset", "live"])
+        try:
+            rep = w.batch(pre + [cmd_of(o) for o in ops] + ["reset", "live"])
+        except (yv.WorkerDied, yv.WorkerHang) as e:
+            err = getattr(e, "err", "")
+            yv.drop_worker("plain"); w = yv.get_worker("plain")
+            kind = "assert" if "Assertion" in err else "signal"
+            on = (getattr(e, "cmd", "") .split() or ["?"])[0]
+            nscans = sum(1 for o in ops if o[0] in ("scan", "scanr"))
+            bad = ("C20:crash:%s:on=%s:%s" % (kind, on, "second-or-later-scan" if nscans > 1 else "first-scan"), dict(error=str(e)[:300], stderr=err[-1200:]))
+            bad[1]["history"] = [list(o) for o in ops]; bad[1]["commands"] = pre + [cmd_of(o) for o in ops]
+            out.append((bad, len(ops))); continue
         body = rep[len(pre):len(pre) + len(ops)]
         st = init_state()
         bad = None
@@ -306,7 +317,7 @@ def literal_equivalence(ck):
 
 
 def main():
-    ck = yv.Check("C20", "model_checking")
+    ck = yv.Check("C20", "model_checking", deadlines=(480, 3300))
     depth = 5 if ck.tier == "quick" else 7
     modes = ["compile"] if ck.tier == "quick" else ["compile", "load"]
     compile_phase(ck)
